@@ -523,6 +523,8 @@ def numeric_strings(d, rng):
            "0.10000000149011612", "33554434.0000000001", "-16777217.0000000001", "1.00000017881393421514957253748434595763683319091796875",
            "9007199254740993", "9007199254740992.9999",
            "+-5", "++5", "-+5", "+", "+-0", "++inf", "+-NaN", "+ 5",
+           # characters that are neither digits nor white space for core, at either end
+           "\ufeff42", "\ufeff", "42\ufeff", "\u200b7", "7\u200b", "\u00a07", "\u20607", "\u00ad5", "\u2212" + "5", "\uff0b5",
            "1" + "0" * 308, "-1" + "0" * 308 + ".0", "0." + "0" * 300 + "1", "0" * 300 + "1.5", "1" * 257, "9" * 400, "0." + "3" * 300,
            "340282346638528859811704183484516925440", "340282346638528859811704183484516925440.0000000000000000000000000000000000000000000000000000"]
     if d.inner in INT_TYPES:
@@ -635,6 +637,7 @@ def c14(tier, rng, rep, only=None):
         n_cover += 1
         sizes[L] = sizes.get(L, 0) + 1
     g.run_impl()
+    profile_crosscheck(g, rep)
     g.run_model()
     n_vals = 0
     n_probe = 0
@@ -739,7 +742,7 @@ def c09(tier, rng, rep, only=None):
         decls = only
     else:
         decls = (corpus.gen_arb_ints(rng.fork("arbint"), tier) + corpus.gen_arb_floats(rng.fork("arbfloat"), tier)
-                 + corpus.gen_arb_strs(rng.fork("arbstr"), tier))
+                 + corpus.gen_arb_strs(rng.fork("arbstr"), tier) + corpus.gen_arb_anys(rng.fork("arbany"), tier))
     g = flows.GuardRun("arb" if tier == "quick" else "arb_t", decls)
     # the proved decision procedure (Sem/ArbFloatDecide) on every float declaration, before anything is
     # built: `total` is a theorem about every byte string, `panics (b ..)` names a failing input
@@ -756,8 +759,11 @@ def c09(tier, rng, rep, only=None):
         if dec.startswith("panics "):
             witness[d.id] = dec[len("panics "):]
             ops.append(("arb", witness[d.id]))
+        if d.family() == "any":
+            ops += [("arb_rest", a_) for _, a_ in ops[:60]]
         g.add_ops(d, ops)
     dropped = run_guard_arb(g, rep, rng)
+    profile_crosscheck(g, rep)          # a generator may not trust itself more in an optimised build
     n = 0
     cls = {}
     dec_stats = {"total": 0, "panics": 0, "unknown": 0, "total_decls_with_real_runs": 0, "witness_panics_confirmed": 0}
@@ -768,6 +774,12 @@ def c09(tier, rng, rep, only=None):
             continue
         n += 1
         d = c.decl
+        if c.op == "arb_rest":
+            cls[("any", "arb_rest")] = cls.get(("any", "arb_rest"), 0) + 1
+            if not c.impl.startswith("same=1"):
+                rep.violation("arbitrary_take_rest(%s) of %s is not the constructor applied to the inner type's arbitrary_take_rest: %s"
+                              % (c.arg, d.id, c.impl), case_payload(c, g))
+            continue
         impl, model = canon_nan(c.impl, d), canon_nan(c.model, d)
         kind = "ok" if impl.startswith("ok") else impl
         cls[(d.family(), kind)] = cls.get((d.family(), kind), 0) + 1
@@ -904,7 +916,7 @@ def c12(tier, rng, rep, only=None):
     if only is None:
         adecls = [d for d in corpus.gen_arb_floats(rng.fork("arbfloat"), tier) if "F" in getattr(d, "shape", [])]
         ga = flows.GuardRun("arb" if tier == "quick" else "arb_t", corpus.gen_arb_ints(rng.fork("arbint"), tier) + corpus.gen_arb_floats(rng.fork("arbfloat"), tier)
-                            + corpus.gen_arb_strs(rng.fork("arbstr"), tier))
+                            + corpus.gen_arb_strs(rng.fork("arbstr"), tier) + corpus.gen_arb_anys(rng.fork("arbany"), tier))
         keep = {d.id for d in adecls}
         for d in ga.decls:
             if d.id in keep:
@@ -1436,7 +1448,8 @@ def c11(tier, rng, rep, only=None):
     # values obtained through Arbitrary (Arbitrary corpus): they too must re-enter unchanged
     n4 = 0
     if only is None:
-        adecls = (corpus.gen_arb_ints(rng.fork("arbint"), tier) + corpus.gen_arb_floats(rng.fork("arbfloat"), tier) + corpus.gen_arb_strs(rng.fork("arbstr"), tier))
+        adecls = (corpus.gen_arb_ints(rng.fork("arbint"), tier) + corpus.gen_arb_floats(rng.fork("arbfloat"), tier) + corpus.gen_arb_strs(rng.fork("arbstr"), tier)
+                  + corpus.gen_arb_anys(rng.fork("arbany"), tier))
         g5 = flows.GuardRun("arb" if tier == "quick" else "arb_t", adecls)
         for d in adecls:
             # (integer declarations with the idempotent clamp sanitizer and bounds belong to a recorded
@@ -1447,6 +1460,7 @@ def c11(tier, rng, rep, only=None):
                 g5.add_ops(d, [("arb", "(b%s)" % "".join(" %d" % b_ for b_ in bs)) for bs in ins[:: (1 if d.family() == "str" else 3)]])
         g5.build()
         g5.run_impl()
+        profile_crosscheck(g5, rep)
         g6 = flows.GuardRun(g5.ws.name, g5.decls)
         g6.ws = g5.ws
         g6.live = g5.live
@@ -1526,6 +1540,9 @@ def json_docs(d, rng, tier):
         docs += [str(v[1]) for v in vals]
     elif fam == "float":
         is64 = FLOAT_TYPES[d.inner]
+        # numbers a hair beside an f32 midpoint (decimal for RON, integer for JSON / MessagePack readers
+        # that go through u64): reading through f64 and narrowing rounds twice
+        docs += ["1.0000000596046448", "16777217.000000001", "3.0000001192092896", "1152921573326323713", "9007199791611905", "16777217"]
         for v in vals:
             if not is_nan_bits(v[1], is64):
                 t = float_text(v[1], is64)
@@ -1557,6 +1574,8 @@ def c04(tier, rng, rep, only=None):
                    [0xcb, 0x40, 0x1c, 0, 0, 0, 0, 0, 0], [0xcb, 0x7f, 0xf8, 0, 0, 0, 0, 0, 0], [0xa2, 0x61, 0x42], [0xa0], [0xa1, 0x20],
                    [0x92, 1, 2], [0x90], [0x93, 3, 0xff, 2], [0xcf, 0xff, 0xff, 0xff, 0xff, 0xff, 0xff, 0xff, 0xff], [0xd3, 0x80, 0, 0, 0, 0, 0, 0, 0],
                    [0xcd], [], [0xa3, 0x61], [0x07], [0x64], [0x65], [0xca, 0x7f, 0x80, 0, 0],
+                   # u64 2^60 + 2^36 + 1 and 2^24 + 1: an f32 reads them with ONE rounding
+                   [0xcf, 0x10, 0, 0, 0x10, 0, 0, 0, 1], [0xce, 1, 0, 0, 1],
                    # bin8 / bin16 / bin32: serde's String also accepts UTF-8 bytes
                    [0xc4, 2, 0x61, 0x42], [0xc4, 0], [0xc4, 1, 0x20], [0xc4, 3, 0x20, 0x61, 0x20], [0xc4, 2, 0xc3, 0x9f], [0xc4, 2, 0xff, 0xfe],
                    [0xc5, 0, 2, 0x61, 0x62], [0xc6, 0, 0, 0, 1, 0x78], [0xc4, 5, 0x61, 0x62, 0x63, 0x64, 0x65]):
@@ -2375,7 +2394,8 @@ def c05(tier, rng, rep, only=None):
     n_inv = 0
     for wsname, decls in (("guard", guardcorpus.build_corpus(rng.fork("C01x"), tier)),
                           ("serde", corpus.gen_serde_decls(rng.fork("serde"), tier)),
-                          ("arb", corpus.gen_arb_ints(rng.fork("arbint"), tier) + corpus.gen_arb_floats(rng.fork("arbfloat"), tier) + corpus.gen_arb_strs(rng.fork("arbstr"), tier))):
+                          ("arb", corpus.gen_arb_ints(rng.fork("arbint"), tier) + corpus.gen_arb_floats(rng.fork("arbfloat"), tier) + corpus.gen_arb_strs(rng.fork("arbstr"), tier)
+                           + corpus.gen_arb_anys(rng.fork("arbany"), tier))):
         g = flows.GuardRun(wsname if tier == "quick" else wsname + "_t", decls)
         for d in decls:
             g.add_ops(d, [("inventory", "")])
